@@ -61,7 +61,50 @@ CLAIMED = {
         design="§5 C11", engine="h_mutex"),
 }
 
-PENDING_REASON = "not claimed yet: the Lean model and its correspondence harness for this property are still being built (see DESIGN.md §11 build order); no check is registered rather than a weaker technique substituted"
+
+CLIENT_NOTE = ("Client level: the Lean theorems are about component models (async_sender, replies, session flags, request validation, timing expressions, packet codecs) "
+               "each tied to the real code by its own lock-step / differential harness or translator; the composition (operation state machines, Asio posting order, channel, "
+               "parallel_group, cancellation slots) is NOT modelled in Lean - it is exercised on the real mqtt_client by the H-client scenario generator with the property's monitor, "
+               "which is the violation search, not the proof. ")
+
+CLAIMED.update({
+    "C01": dict(text="Proof (reply-matching core): in the model of detail::replies, for every history, a waiter completes ok only with the bytes of a reply dispatched with exactly its "
+                     "(control code, packet id); keys stay unique; fast replies are discarded at every write. Tied by lock-step of the real replies class. The end-to-end statement "
+                     "(PUBLISH fields on the wire = arguments, final ack's rc/props = handler's) is searched by the C01 monitor on the real client.",
+                note=COMMON_NOTE + CLIENT_NOTE, technique="Lean 4 invariants over histories of the replies model + lock-step differential; trace monitor on the real client", design="§5 C01/C14", engine="h_replies,h_client"),
+    "C02": dict(text="Proof (conservation core): do_write neither drops nor duplicates requests; a write failed with try_again re-queues unanswered + batch + queue; no request is ever finished with try_again; "
+                     "resend_unanswered reaches every waiter once. Liveness (eventual completion once the broker stays reachable) is NOT proved: it is searched by the fault-free-suffix monitor on the real client (partial).",
+                note=COMMON_NOTE + CLIENT_NOTE + "Stream-level fault handling (read_op/write_op/reconnect_op) is not modelled.", technique="Lean 4 conservation lemmas on sender/replies models + lock-step; healing-suffix monitor on the real client", design="§5 C02", engine="h_sender,h_replies,h_client"),
+    "C03": dict(text="Proof (packet core): set_dup on a PUBLISH encoded with DUP=0 equals byte for byte the encoding with DUP=1 (only bit 3 of byte 0 changes, idempotent) and decodes under the strict spec decoder to the same message with DUP=1. "
+                     "The stored-packet state machine (only PUBREL kept after a successful PUBREC; DUP iff an earlier write succeeded) is searched by the C03 monitor on the real client, not modelled.",
+                note=COMMON_NOTE + CLIENT_NOTE, technique="Lean 4 theorems on the encoder model + differential check of control_packet::set_dup; wire-history monitor on the real client", design="§5 C03", engine="h_codec,h_client"),
+    "C04": dict(text="Proof (waiter core): a duplicate (PUBREL, id) waiter replaces and aborts the old one (QoS 2 at most once), an arriving PUBREL completes only its waiter, clear_pending_pubrels aborts exactly the PUBREL waiters. "
+                     "Acknowledgement chain, delivery content and order are searched by the C04 monitor on the real client (broker as QoS 0/1/2 sender). Known limits: see DESIGN §9 (F10/F11 not confirmed by the machinery).",
+                note=COMMON_NOTE + CLIENT_NOTE, technique="Lean 4 lemmas on the replies model + lock-step; inbound-exchange monitor on the real client", design="§5 C04", engine="h_replies,h_client"),
+    "C05": dict(text="Proof (component core): replies.cancel_unanswered and async_sender.cancel abort each waiter/request exactly once and keep none; async_send completes nothing inline; the connection lock never completes inline. "
+                     "Exactly-once completion per API operation, cancel()/async_disconnect draining and io_context running out of work are searched by the C05 monitor on the real client.",
+                note=COMMON_NOTE + CLIENT_NOTE, technique="Lean 4 lemmas on sender/replies/mutex models + lock-step; completion-count / idle monitor on the real client", design="§5 C05", engine="h_sender,h_replies,h_client"),
+    "C07": dict(text="Proof: token invariant of the async_sender model for every history (sends, write completions with any result, replies, reconnects storing any Receive Maximum, read-path resends, cancel): "
+                     "quota + throttled requests written-and-unanswered <= limit, no uint16 wrap, and after do_write no sendable request is left idle. Tied by lock-step of the real async_sender on a mock service (every output compared).",
+                note=COMMON_NOTE + CLIENT_NOTE + "Hypothesis of the history theorem: terminal requests are never throttled (true of every call site).", technique="Lean 4 invariant by induction over sender histories + lock-step differential; in-flight monitor on the real client", design="§5 C07", engine="h_sender,h_client"),
+    "C09": dict(text="Proof (sender core): with the stream free and a terminal request queued, do_write writes exactly that request alone, ahead of everything queued; nothing is written while a write is in progress and the terminal request is next after it; a batch never mixes a terminal request with others. "
+                     "The 5 s bound, abort of the other operations and silence afterwards are searched by the C09 monitor on the real client (virtual time). Known finding F21.",
+                note=COMMON_NOTE + CLIENT_NOTE, technique="Lean 4 theorems on do_write + lock-step; disconnect monitor on the real client under virtual time", design="§5 C09", engine="h_sender,h_client"),
+    "C12": dict(text="Proof (timing rules): the expressions compute_read_timeout, ping compute_wait_time and negotiated_keep_alive are translated from the source on every run; theorems: read time-out = 1500*K ms, ping period = K s, K = 0 => neither, negotiated = Server Keep Alive or configured. "
+                     "PINGREQ cadence and read time-outs of the real client are checked by the C12 monitor under virtual time. The timed read itself (read_op) is not modelled.",
+                note=COMMON_NOTE + CLIENT_NOTE, technique="translator + Lean 4 arithmetic theorems; virtual-time monitor on the real client", design="§5 C12", engine="h_client"),
+    "C13": dict(text="Proof: flag machine (session_present / subscriptions_present, on_connack, update_session_state, SUBACK success) - for every history the number of session_expired reports equals the specification "
+                     "(one per lost session with a successful subscription since the last report; idempotent per connection). Tied by abstract replay: the model's report count on the inputs read off each real-client transcript equals the reports actually delivered.",
+                note=COMMON_NOTE + CLIENT_NOTE, technique="Lean 4 induction over histories of the flag machine + abstract-replay correspondence on real-client transcripts", design="§5 C13", engine="h_client"),
+    "C14": dict(text="Proof: verdict model (admit each code, require exactly one admissible code per topic) - success iff count matches and all codes admissible, and then the codes are the acknowledgement's, in order; SUBACK/UNSUBACK routed by (code, id) as in C01. "
+                     "Tied by running arbitrary code lists through the real client (H-client) against the model, and by the replies lock-step.",
+                note=COMMON_NOTE + CLIENT_NOTE, technique="Lean 4 theorem on the verdict model + differential through the real client; trace monitor", design="§5 C01/C14", engine="h_client,h_replies"),
+    "C15": dict(text="Proof: model of publish/subscribe perform + validation chains (Except error bytes): an accepted request respects Maximum Packet Size, Maximum QoS, Retain Available, Topic Alias Maximum, wildcard/shared/identifier availability; documented errors in precedence order; size boundary. "
+                     "Tied by requests at every capability boundary through the real client holding such a CONNACK: packet bytes or immediate error compared with the model.",
+                note=COMMON_NOTE + CLIENT_NOTE + "unsubscribe/disconnect validation is covered by the differential generator of C16/C17 only.", technique="Lean 4 theorems on the validation model + differential through the real client", design="§5 C15", engine="h_client"),
+})
+
+PENDING_REASON = "not claimed: the Lean model and its correspondence harness for this property are still being built (see DESIGN.md §11 build order); no check is registered rather than a weaker technique substituted"
 
 ALL = [f"C{i:02d}" for i in range(1, 21)]
 
@@ -96,6 +139,9 @@ def main():
         "engines": [
             {"name": "lean", "path": "/verif/lean", "serves_properties": sorted(CLAIMED), "kind_free_text": "Lean 4 library Mqtt5V (Gen = translated from source, Spec, Model, Proofs, Props) + compiled model driver mdrv"},
             {"name": "translators", "path": "/verif/tools", "serves_properties": sorted(CLAIMED), "kind_free_text": "regenerate Gen/*.lean from /repo headers on every run"},
+            {"name": "h_client", "path": "/verif/harness/h_client.cpp", "serves_properties": ["C01","C02","C03","C04","C05","C06","C07","C08","C09","C12","C13","C14","C15"], "kind_free_text": "real mqtt_client/client_service/sender/replies/ops on a scripted autoconnect_stream stand-in, virtual clock; driven online by lib/client_gen.py"},
+            {"name": "h_sender", "path": "/verif/harness/h_sender.cpp", "serves_properties": ["C02","C05","C06","C07","C09"], "kind_free_text": "real async_sender on a mock service"},
+            {"name": "h_replies", "path": "/verif/harness/h_replies.cpp", "serves_properties": ["C01","C02","C04","C05","C14"], "kind_free_text": "real detail::replies"},
             {"name": "h_rc", "path": "/verif/harness/h_rc.cpp", "serves_properties": ["C20"], "kind_free_text": "real to_reason_code under ASan, exhaustive"},
             {"name": "h_order", "path": "/verif/harness/h_order.cpp", "serves_properties": ["C06"], "kind_free_text": "real write_req::operator< and std::stable_sort over vector<write_req>"},
             {"name": "h_utf8", "path": "/verif/harness/h_utf8.cpp", "serves_properties": ["C16"], "kind_free_text": "real UTF-8 / topic validators on exact-size heap copies under ASan"},
